@@ -699,3 +699,44 @@ Proof.
     destruct (concatenate_o v d d2); try exact H. rewrite !map_app. f_equal. exact H.
   - rewrite !map_app. f_equal. exact H.
 Qed.
+
+(* ------------------------------------------------------------------ frame property: value semantics of the store
+   The operations of the model are functions of VALUES: an operation writes at most the data set it is called on (the scaling
+   methods, revert, shuffle, move_boundaries_to_front, remove_samples) and appends its results; every other data set of the store -
+   whatever arrays it was built from or derived from - is left exactly as it was.  (The Python objects can violate this only through
+   shared numpy arrays; the harness observes that as a difference to this model: oracles operation-changes-other-dataset and
+   argument-mutated.) *)
+Definition writes (o : sop) : option nat :=
+  match o with
+  | SRange h _ _ _ | SFactor h _ _ | SShift h _ _ | SRevert h | SShuffle h _ | SMbf h _ | SRemove h _ => Some h
+  | _ => None
+  end.
+
+Lemma nth_error_upd_other {A} h k (t : A) st : k <> h -> nth_error (upd h t st) k = nth_error st k.
+Proof.
+  revert h k. induction st as [|x st IH]; intros [|h] [|k] H; cbn [upd nth_error]; try reflexivity; try contradiction.
+  apply IH. intro E. apply H. f_equal. exact E.
+Qed.
+
+Theorem tstep_frame v (st : list tds) o k : (k < length st)%nat -> writes o <> Some k -> nth_error (tstep v st o) k = nth_error st k.
+Proof.
+  intros Hk Hw.
+  assert (Happ : forall ext : list tds, nth_error (st ++ ext) k = nth_error st k) by (intro ext; apply nth_error_app1; exact Hk).
+  destruct o as [h lo hi ov|h a ov|h a ov|h|h perm|h idx|h|h p|h|h idx|h h2|h]; cbn [tstep writes] in *;
+    try (assert (Hne : k <> h) by (intro E; apply Hw; f_equal; symmetry; exact E));
+    destruct (nth_error st h) as [[d R]|]; try reflexivity.
+  - destruct (scale_range_o true lo hi ov d) as [d' e]. apply nth_error_upd_other. exact Hne.
+  - destruct (scale_factor_o true a ov d) as [d' e]. apply nth_error_upd_other. exact Hne.
+  - destruct (shift_value_o true a ov d) as [d' e]. apply nth_error_upd_other. exact Hne.
+  - destruct (revert_o true d) as [d' e]. apply nth_error_upd_other. exact Hne.
+  - destruct (shuffle_o perm d) as [d' e]. apply nth_error_upd_other. exact Hne.
+  - destruct (mbf_o idx d) as [d' e]. apply nth_error_upd_other. exact Hne.
+  - destruct (update_internal_raises (base d) && negb (is_empty (base d))); [reflexivity | apply Happ].
+  - destruct (update_internal_raises (base d)); [reflexivity|]. destruct (split_pieces_o p d) as [x y]. apply Happ.
+  - destruct (update_internal_raises (base d)); [reflexivity|]. destruct (split_without_labels_o d) as [x y]. apply Happ.
+  - destruct (remove_samples_o v idx d) as [d' r]. destruct (remove_keep (v_base v) idx (length (rows (base d)))) as [ni keep].
+    destruct r as [r'|]; [|apply nth_error_upd_other; exact Hne].
+    rewrite nth_error_app1 by (rewrite upd_length; exact Hk). apply nth_error_upd_other. exact Hne.
+  - destruct (nth_error st h2) as [[d2 R2]|]; [|reflexivity]. destruct (concatenate_o v d d2); try reflexivity. apply Happ.
+  - apply Happ.
+Qed.
